@@ -1,3 +1,4 @@
+import ZI.RO
 /-! C20 model (core Lean only): `_normalizeargs`, `Specification.interfaces` (= `Declaration.__iter__`), `__contains__`,
 `__sub__`, `__add__` as ordered sets. -/
 namespace ZI.Decl
@@ -169,6 +170,12 @@ def flatList (ex : Expand) : List Arg → List Id
   | [] => []
   | a :: rest => flat ex a ++ flatList ex rest
 end
+
+/-- `Declaration.flattened()` = `__iro__`: the resolution order of the declaration (`Specification._calculate_sro`, the C03 model
+`ZI.RO.sroFresh`: C3 over the bases' orders, the legacy order when that merge is stuck, the root last) restricted to interfaces.
+`bases` is the specification graph the declaration sits in (interfaces, class specifications, the declaration itself). -/
+def flattened (bases : ZI.RO.Bases) (root : Id) (isIface : Id → Bool) (fuel : Nat) (node : Id) : List Id :=
+  (ZI.RO.sroFresh bases root fuel node).filter isIface
 
 /-- `Declaration.__contains__`: `self.extends(interface) and interface in self.interfaces()` -/
 def contains (implied : Id → Bool) (ifaces : List Id) (i : Id) : Bool := implied i && ifaces.contains i
